@@ -1,0 +1,10 @@
+//go:build !verif
+
+package fusemanager
+
+import "github.com/containerd/stargz-snapshotter/snapshot"
+
+// verifOverrideFS is a no-op unless built with -tags verif (see verif_export.go).
+func verifOverrideFS(_ *Server, fs snapshot.FileSystem, err error) (snapshot.FileSystem, error) {
+	return fs, err
+}
